@@ -845,6 +845,15 @@ def _match_scaffold(th, sig):
     m = {"k": "match", "term": var("e"), "cases": cases}
     r = {"name": "zq_match", "body": [{"k": "if", "atom": {"k": "pred", "p": "zq_pair", "args": [var("e"), var("t")]}}, {"k": "if", "atom": {"k": "pred", "p": "zq_seen", "args": [var("t")]}}, m]}
     th["rules"].append(r)
+    # further, complete match statements on the same enum: one in another rule and one nested in a
+    # case of the first (exhaustiveness is a property of each statement, not of the program)
+    def full(v, tag):
+        return {"k": "match", "term": var(v), "cases": [
+            {"ctor": "ZqmA", "vars": [], "body": []},
+            {"ctor": "ZqmB", "vars": ["_"], "body": []},
+            {"ctor": "ZqmC", "vars": ["_", "k" + tag], "body": [{"k": "then", "atom": {"k": "pred", "p": "zq_seen", "args": [var("k" + tag)]}}]}]}
+    th["rules"].append({"name": "zq_match_other", "body": [{"k": "if", "atom": {"k": "pred", "p": "zq_pair", "args": [var("g"), var("_u")]}} if False else {"k": "if", "atom": {"k": "pred", "p": "zq_pair", "args": [var("g"), wild()]}}, full("g", "a")]})
+    cases[2]["body"].append(full("c", "b"))
     return r, m
 
 
